@@ -47,7 +47,8 @@ TERNARY_CONSTRAINTS = [None, None, None, "to_output_scale", "to_left_grad_scale"
 ATOMS = ["gelu", "silu", "softmax", "dropout", "layer_norm", "rms_norm", "linear", "linear_readout", "matmul",
          "add", "add_scalar", "add_bcast", "residual", "silu_glu", "sdpa", "conv1d", "scale", "graph_break"]
 MODULES = ["Linear", "MLP", "MHSA", "TransformerLayer", "LayerNorm", "RMSNorm", "GELU", "SiLU", "Softmax",
-           "LinearReadout", "DepthSequential", "Embedding", "Conv1d", "Dropout"]
+           "LinearReadout", "DepthSequential", "Embedding", "Conv1d", "Dropout", "TransformerDecoder", "CrossEntropyLoss",
+           "DepthModuleList"]
 
 
 def phases(tier: str) -> List[Dict[str, Any]]:
@@ -261,6 +262,25 @@ def build(plan: Dict[str, Any]) -> Built:
         elif t == "Embedding":
             mod = uu.Embedding(11, D)
             ids_input = True
+        elif t == "TransformerDecoder":
+            mod = uu.TransformerDecoder(D, 11, layers=2, heads=2)
+            ids_input = True
+        elif t == "CrossEntropyLoss":
+            mod = uu.CrossEntropyLoss(mult=0.5)
+        elif t == "DepthModuleList":
+            inner = uu.DepthModuleList([uu.Linear(D, D, bias=True), uu.Linear(D, D)])
+
+            class Seq(torch.nn.Module):
+                def __init__(self) -> None:
+                    super().__init__()
+                    self.layers = inner
+
+                def forward(self, x: Any) -> Any:
+                    for layer in self.layers:
+                        x = uu.functional.gelu(layer(x))
+                    return x
+
+            mod = Seq()
         elif t == "Conv1d":
             mod = uu.Conv1d(3, 4, 3, padding=1, bias=True)
         else:
@@ -276,10 +296,19 @@ def build(plan: Dict[str, Any]) -> Built:
                 batch = batch + [3]
             if t in ("MHSA", "TransformerLayer"):
                 batch = batch[:2]
+            if t == "TransformerDecoder":
+                batch = (batch + [3])[:2]
             if ids_input:
                 from simkit.seams import orig_randint
 
                 return [orig_randint(0, 11, tuple(batch), generator=g)]
+            if t == "CrossEntropyLoss":
+                from simkit.seams import orig_randint
+
+                n = 1
+                for b_ in batch:
+                    n *= b_
+                return [torch.randn(n, 7, generator=g).to(_dtype(m["dtype"])), orig_randint(0, 7, (n,), generator=g)]
             if t == "Conv1d":
                 return [torch.randn(batch[0], 3, 6 + batch[-1], generator=g).to(_dtype(m["dtype"]))]
             return [torch.randn(*batch, D, generator=g).to(_dtype(m["dtype"]))]
@@ -562,7 +591,7 @@ def execute(plan: Dict[str, Any]) -> Dict[str, Any]:
             # rms_norm computes its statistics in float32 whatever the input dtype (x.float()):
             # float64 results are then only float32-accurate, in eager as well
             f32_internal = any(a["atom"] == "rms_norm" for a in plan["atoms"]) or \
-                plan.get("module", {}).get("type") in ("RMSNorm", "TransformerLayer")
+                plan.get("module", {}).get("type") in ("RMSNorm", "TransformerLayer", "TransformerDecoder")
             last_good: Optional[Dict[str, Any]] = None
             for i, op in enumerate(plan["ops"]):
                 k = op["op"]
